@@ -26,7 +26,7 @@ MECHANISMS = ["jaxley.io.swc:read_swc", "jaxley.io.swc:swc_to_jaxley", "jaxley.u
               "jaxley.utils.cell_utils:_split_long_branches"]
 MECHANISMS_REQUIRED = MECHANISMS[:7]
 REQUIRED = {"quick": {"structure": 60, "lengths": 60, "radii": 60, "groups": 60, "ncomp_indep": 30, "split": 8},
-            "thorough": {"structure": 1200, "lengths": 1000, "radii": 1000, "groups": 1000, "ncomp_indep": 700, "split": 150}}
+            "thorough": {"structure": 300, "lengths": 300, "radii": 300, "groups": 300, "ncomp_indep": 150, "split": 40}}
 WALL_BUDGET = {"quick": 1500, "thorough": 4 * 3600}
 
 
